@@ -106,7 +106,7 @@ var guardedFields = []guardSpec{
 
 func ruleD2(c *Ctx, id string) {
 	P, R := c.P, c.R
-	R.Rule(id, "guarded-by: ShrinkerSt.{nthread,crash} only under ShrinkerSt.mu; Cache.{entries,lru,cnt} and entry.lru only under Cache.mu (helpers without their own Lock must be called with it held)", 20)
+	R.Rule(id, "guarded-by: ShrinkerSt.{nthread,crash} only under ShrinkerSt.mu; Cache.{entries,lru,cnt} and entry.lru only under Cache.mu (helpers without their own Lock must be called with it held)", 25)
 	perKey := map[string]int{}
 	// callersHold: every call site of fn is at a point where the mutex is held
 	var callersHold func(fn *ssa.Function, g guardSpec, d int) bool
@@ -162,7 +162,7 @@ func ruleD2(c *Ctx, id string) {
 
 func ruleD3(c *Ctx, id string) {
 	P, R := c.P, c.R
-	R.Rule(id, "statistics are atomic: stats.Op.{count,nanos} are touched only as the address argument of sync/atomic functions (or on local copies)", 6)
+	R.Rule(id, "statistics are atomic: stats.Op.{count,nanos} are touched only as the address argument of sync/atomic functions (or on local copies)", 18)
 	op := P.Named("util/stats", "Op")
 	if op == nil {
 		R.Unresolved(id, "util/stats.Op")
